@@ -1,8 +1,8 @@
-# NOTE: bin/check merges a VERIF_GO_FLAGS=-overlay=X development overlay with the shim overlay given in go_flags below
-# (go honours only the last -overlay flag); harness/c19/overlay/merge_overlay.py does the same by hand.
+# NOTE: this check has NO white-box shim any more (no go_flags / -overlay): nothing is compiled into package scenem and the
+# harness names no unexported identifier of it (see harness/c19/whitebox_test.go and seeded/C19-h-rename).
 CONFIG = dict(
     id="C19",
-    engine="bubble (virtual clock), white-box shim added by go -overlay",
+    engine="bubble (virtual clock); state without an exported query read by type (reflect), no source shim",
     technique="Lean 4 invariant proof over all event histories of a hand-written model of the scene manager + differential "
               "correspondence (acceptance for the two nondeterministic results) with the real scenem package + property monitor on its dumps",
     level_text="Machine-checked proof in Lean 4 about a model of scenem's World/SceneLines/SceneServiceMgr and, around it, of the manager as a "
@@ -43,8 +43,12 @@ CONFIG = dict(
                "service lost only after 12 s without a refresh, the keeper asks only below need - also per entry of a whole round, at most once per entry -, a client is told ok only for a live scene, "
                "a request is given up only after more than 30 s) "
                "is evaluated on the implementation's own dumps.",
-    level_note="Trusted: Lean kernel; harness/driver line protocol; the overlay shim (read-only accessors + direct calls of onUpdate/"
-               "onServiceLost/World.OnServiceLost/PublicScenes.Update/addPublicScene; the `keeper` op replaces the table by one entry, the `update`/`timers` ops use the table as Init and addPublicScene built it); float32 busy weight abstracted to min(n,5000) "
+    level_note="Trusted: Lean kernel; harness/driver line protocol; the harness's by-type access (harness/c19/whitebox_test.go: no file is added to package scenem and no unexported "
+               "identifier of it is named; scenes are read through QueryScenes/GetScene, lines through the SceneLine getters; the tables of services / lines / public scenes, the world, the keeper and "
+               "the id counter are the unique values of their TYPE reachable from the manager; the periodic check (`tick`) is the callback the real Start registered on the timer manager, called directly; "
+               "`lost` lets that same real check declare exactly one service lost by making it look overdue and hiding the others for the duration of the call, then puts the doctored fields back; "
+               "`wlost`/`update` call the exported World.OnServiceLost / PublicScenes.Update; the `keeper` op replaces the table by one entry, the `update`/`timers` ops use the table as Init built it; "
+               "`pubadd` writes the table entry itself (first registration kept) - the code's own unexported registration function is exercised only by Init at every reset, duplicates of the two presets included, not with generated arguments); float32 busy weight abstracted to min(n,5000) "
                "(validated on every adjacent pair 0..5101 and sampled pairs each run); Go map iteration and math/rand as arbitrary choices "
                "(theorems quantify over every visiting order / draw; the driver accepts a SpawnScene/keeper result iff the model produces "
                "it for SOME visiting order; a whole round / a serving of the timer queue iff the model produces result and state for SOME order of the table, "
@@ -65,7 +69,6 @@ CONFIG = dict(
                        "init_table", "keeper_starts_with_first_service", "keeper_round_asks_only_below_need", "timers_serve_queue_once",
                        "request_timeout_registers_nothing", "findIdleGo_eq_findIdle", "empty_service_id_breaks_placement"],
     harness_pkg="./c19",
-    go_flags=["-overlay=/verif/harness/c19/overlay/overlay.json"],
     mode="accept",
     reset_prefix="reset",
     runs={
@@ -91,7 +94,12 @@ CONFIG = dict(
         "Lean 4.33.0 kernel; axioms of every property theorem audited on each run (allowed: propext, Classical.choice, Quot.sound)",
         "hand-written model lean/Cell2v/Model/SceneM.lean (Mgr and, around it, Sys = manager + requests in flight + cluster view; the driver runs Sys.step/Sys.spawn/Sys.keeper/Sys.reply themselves) and lean/Cell2v/Model/SceneMNode.lean (Node = Sys + public-scene table + the three timers + request deadlines; the driver runs Node.step) tied to the Go code by the acceptance run of this check (harness/c19 + modeld_c19 accept)",
         "scenem Service object built by handler.NewService(); handler Entry.AllocScene called directly; scheduler tasks (waterfall) drained synchronously by the harness",
-        "overlay shim harness/c19/overlay/export_verif.go (package scenem, added at build time, /repo untouched): read-only accessors (scenes, lines, stats, id counter, public-scene table, keeper timer id, the two config switches) and direct calls of onUpdate / onServiceLost / World.OnServiceLost / PublicScenes.Update / addPublicScene (the `keeper` op first replaces the keeper's table by one entry)",
+        "harness/c19/whitebox_test.go (package c19; no overlay, nothing compiled into package scenem, no unexported identifier of scenem named - a rename/move/split of one cannot break the build: seeded/C19-h-rename): "
+        "scenes via the exported QueryScenes/GetScene, line fields via the exported SceneLine getters, service stats / public-scene entries via their exported fields, the two config switches via mmo/common/config; "
+        "the world, the keeper, the maps of services / lines per configuration / public scenes, the slice of lines and the uint64 id counter are found by TYPE with reflect (exactly one value of the type reachable from the manager through structs of package scenem, any field name or nesting; otherwise the harness panics with a message naming the lookup) and read or written through unsafe pointers; "
+        "`tick` calls the callback of the one timer with scenem code that the real SceneServiceMgr.Start left in the timer manager's registry (the registry is utils/timer's only sync.Map field, found by type; timer.Obj.CB is exported), K= is 'another live timer with scenem code exists' (fallback when the registry is unreadable: the keeper's only timer.IdType field); "
+        "`lost` on a known service runs that same real check with the service doctored to look overdue (counter 2^20, stamp 0) and every other service temporarily not working, so that the real keep-alive-failed / loss handlers run for it alone, then restores the others' flags and the service's counter and stamp; on an unknown service and for `wlost` the exported World.OnServiceLost is called; "
+        "`keeper` replaces the keeper's table by one entry and calls the exported PublicScenes.Update; `pubadd` writes the entry into the table itself, first registration kept (the code's unexported registration function has no exported caller with arguments: its real behaviour is compared at every reset, where Init registers both presets, i.e. three duplicates)",
         "utils/timer and time.AfterFunc inside the testing/synctest bubble: the harness plays the service's loop for the timer queue (synctest.Wait, then every queued timer object is handed to the real timer.Mgr.Do); the model's timer semantics (due time, once on the queue, re-armed a period after it ran, same-instant timers in any order) is compared through what fires and what it does, not proved about utils/timer",
         "float32 GetBusyWeight (CPURate is never set) abstracted to the integer key min(n,5000); compared with the real function on every adjacent pair 0..5101 and on sampled pairs up to 2^24-1 in every run",
         "Go map iteration order and math/rand are arbitrary: the theorems quantify over every visiting order / draw, the driver accepts any least-busy working service and any line of the configuration",
